@@ -197,6 +197,17 @@ pub(crate) fn serialize_cdata<'a, N: Normalizer>(
                 }
                 closing_square_brackets_seen = 0;
             }
+            '\r' => {
+                // push any closing square brackets we've seen
+                for _ in 0..closing_square_brackets_seen {
+                    result.push(']');
+                }
+                closing_square_brackets_seen = 0;
+                // a literal carriage return would be read back as a newline
+                // (line end normalization), and CDATA cannot contain a
+                // character reference, so step out of the section for it
+                result.push_str("]]>&#13;<![CDATA[");
+            }
             _ => {
                 // push any closing square brackets we've seen
                 for _ in 0..closing_square_brackets_seen {
